@@ -45,6 +45,12 @@ type hdGen struct {
 	tag       int
 	dropped   []int // connections whose session may still be resumable
 	nb        int   // configured backends
+	// two-tenant cases: backend -> connection of the one internal client that announced "start-dialout" for it.
+	// The server picks the dial-out client of a backend by walking a Go map, so with two connected ones the
+	// choice is not determined; a case has at most one per backend (ever, so a resume cannot make a second).
+	dial map[int]int
+	// (internal client's connection, chosen id) -> room of the last addsession sent for it
+	vroom map[[2]int]int
 }
 
 func (g *hdGen) pickConn() int {
@@ -236,6 +242,43 @@ func (g *hdGen) apiOp(bk int) hdOp {
 	if g.opts.perms && r.chance(50) {
 		x = 3
 	}
+	if g.opts.virtual && r.chance(50) {
+		// the backend's in-call list names virtual sessions too (Nextcloud knows them: it was told when they were
+		// added) - the room keeps the list it was sent last and repeats it in later participants updates
+		var keys [][2]int
+		for k := range g.vroom {
+			keys = append(keys, k)
+		}
+		if len(keys) > 0 {
+			sort.Slice(keys, func(i, j int) bool { return keys[i][0] < keys[j][0] || (keys[i][0] == keys[j][0] && keys[i][1] < keys[j][1]) })
+			first := pick(r, keys)
+			o.Api = "incall"
+			o.R = g.vroom[first]
+			if b, ok := g.auth[first[0]]; ok {
+				o.B, o.SignAs = b, b
+			}
+			for _, k := range keys {
+				// the others that were added to the same room, most of the time
+				if k == first || (g.vroom[k] == o.R && r.chance(70)) {
+					o.Users = append(o.Users, hdApiUser{Id: &hdIdRef{T: "vpub", C: k[0], V: k[1]}, InCall: pick(r, []int{0, 1, 3, 7})})
+				}
+			}
+			if r.chance(50) {
+				o.Users = append(o.Users, hdApiUser{RS: 1 + r.intn(8), InCall: pick(r, []int{0, 1, 7})})
+			}
+			return o
+		}
+	}
+	if g.opts.twoTenants && r.chance(14) {
+		// a dial-out request: well-formed most of the time; never while the backend's dial-out client is busy
+		// with a held-back creation (it could not answer before the request times out)
+		o.Api = "dialout"
+		o.R = 1 + r.intn(9)
+		if dc, have := g.dial[bk]; r.chance(15) || (have && g.blocked[dc]) {
+			o.Tag = 1 + r.intn(3)
+		}
+		return o
+	}
 	switch x {
 	case 0:
 		o.Api = "delete"
@@ -293,6 +336,7 @@ func (g *hdGen) internalOp(c int) hdOp {
 	switch r.intn(8) {
 	case 0, 1, 2:
 		o := hdOp{K: "internal", C: c, Ik: "addsession", V: 1 + r.intn(3), R: 1 + r.intn(3), U: r.intn(4)}
+		g.vroom[[2]int{c, o.V}] = o.R
 		if r.chance(40) {
 			o.HasF, o.Flags = true, r.intn(4)
 		}
@@ -345,7 +389,12 @@ func (g *hdGen) hello(c int) hdOp {
 			feat = append(feat, ClientFeatureInternalInCall)
 		}
 		if r.chance(20) {
-			feat = append(feat, ClientFeatureStartDialout)
+			if _, have := g.dial[bk]; !g.opts.twoTenants || !have {
+				feat = append(feat, ClientFeatureStartDialout)
+				if g.opts.twoTenants {
+					g.dial[bk] = c
+				}
+			}
 		}
 		if tok == 0 && bk < 2 {
 			g.auth[c] = bk
@@ -473,6 +522,9 @@ func (g *hdGen) op() hdOp {
 	if g.opts.perms {
 		w["api"] = 25
 	}
+	if g.opts.virtual && g.opts.api {
+		w["api"] = 22
+	}
 	total := 0
 	order := []string{"join", "msg", "bye", "drop", "tick", "resume", "transient", "api", "internal", "media", "kick"}
 	for _, k := range order {
@@ -529,7 +581,7 @@ func (g *hdGen) op() hdOp {
 }
 
 func hdGenCase(r *vrng, id int, opts hdGenOpts, n int) *hdCase {
-	g := &hdGen{r: r, opts: opts, blocked: map[int]bool{}, auth: map[int]int{}, intern: map[int]bool{}, rsOf: map[int]int{}, rsBackend: map[int]int{}}
+	g := &hdGen{r: r, opts: opts, blocked: map[int]bool{}, auth: map[int]int{}, intern: map[int]bool{}, rsOf: map[int]int{}, rsBackend: map[int]int{}, dial: map[int]int{}, vroom: map[[2]int]int{}}
 	c := &hdCase{Id: id, Mode: 1, Backends: []hdBackendCfg{{}, {}}}
 	g.nb = 2
 	if opts.v2 && r.chance(40) {
@@ -572,6 +624,18 @@ func hdGenCase(r *vrng, id int, opts hdGenOpts, n int) *hdCase {
 		for b := 0; b < 2; b++ {
 			if r.chance(70) {
 				c.Ops = append(c.Ops, hdOp{K: "api", B: b, SignAs: b, R: 1 + r.intn(2), Api: "incallall", InCall: 1})
+			}
+		}
+		if opts.twoTenants {
+			// dial-out clients (internal clients that announced "start-dialout", in no room), for one tenant, both or none
+			for b := 0; b < 2; b++ {
+				if r.chance(45) {
+					g.next++
+					i := g.next
+					g.conns = append(g.conns, i)
+					c.Ops = append(c.Ops, hdOp{K: "connect", C: i, Addr: 1 + r.intn(3)}, hdOp{K: "hello", C: i, Ht: "internal", B: b, Feat: []string{ClientFeatureStartDialout}})
+					g.auth[i], g.intern[i], g.dial[b] = b, true, i
+				}
 			}
 		}
 	}
